@@ -317,7 +317,7 @@ func (sc *Scenario) configYAML() string {
 	f("CO2StomataInfluence", sc.CO2Stomata)
 	f("NDeposition", fmtG(sc.NDeposition))
 	f("StartYear", sc.Start.Y)
-	q("EndDate", FmtDate(sc.End, sc.DateFormat))
+	q("EndDate", sc.fmtIn(sc.End))
 	q("AnnualOutputDate", FmtDayMonth(sc.AnnualDay, sc.AnnualMonth, sc.DateFormat))
 	q("VirtualDateFertilizerPrediction", sc.VirtualDate)
 	f("Latitude", fmtG(sc.Latitude))
@@ -354,6 +354,9 @@ func (sc *Scenario) configYAML() string {
 	}
 	return out
 }
+
+// fmtIn renders a date for an input file of the scenario: in its date format, with the scenario's separator (none . / -)
+func (sc *Scenario) fmtIn(d Date) string { return FmtDateSep(d, sc.DateFormat, sc.DateSep) }
 
 func fmtG(x float64) string { return strconv.FormatFloat(x, 'g', -1, 64) }
 
@@ -524,8 +527,8 @@ func (sc *Scenario) rotationFile(csv bool) string {
 		}
 	}
 	line := func(field string, e RotEntry) {
-		sow := FmtDate(e.Sow, sc.DateFormat)
-		har := FmtDate(e.Harvest, sc.DateFormat)
+		sow := sc.fmtIn(e.Sow)
+		har := sc.fmtIn(e.Harvest)
 		if csv {
 			cell := map[string]string{"Field_ID": field, "crop": fmt.Sprintf("%-3s", e.Crop), "sowing": sow, "harvest": har, "Rex": fmt.Sprintf("%03d", e.Rex), "yld": fmt.Sprintf("%03d", e.Yld),
 				"autorg": strconv.Itoa(e.AutOrg), "variety": e.Variety, "comment": "gen"}
@@ -593,10 +596,10 @@ func (sc *Scenario) measFile(csv bool) string {
 				pad = pickS(rp, []string{" ", "     ", "\t"})
 			}
 			if short {
-				fmt.Fprintf(&b, "%s,%s,%d,%d,%d,%s,%.3f,%.3f,%.3f\n", id+pad, FmtDate(sc.MeasDate, sc.DateFormat)+pad,
+				fmt.Fprintf(&b, "%s,%s,%d,%d,%d,%s,%.3f,%.3f,%.3f\n", id+pad, sc.fmtIn(sc.MeasDate)+pad,
 					sc.MeasN[0], sc.MeasN[1], sc.MeasN[2], sc.MeasMode, sc.MeasW[0], sc.MeasW[1], sc.MeasW[2])
 			} else {
-				fmt.Fprintf(&b, "%s,%s,%d,%d,%d,%d,%d,%d,%s,%.3f,%.3f,%.3f,%.3f,%.3f,%.3f\n", id+pad, FmtDate(sc.MeasDate, sc.DateFormat)+pad,
+				fmt.Fprintf(&b, "%s,%s,%d,%d,%d,%d,%d,%d,%s,%.3f,%.3f,%.3f,%.3f,%.3f,%.3f\n", id+pad, sc.fmtIn(sc.MeasDate)+pad,
 					sc.MeasN[0], sc.MeasN[1], sc.MeasN[2], sc.MeasN[3], sc.MeasN[4], sc.MeasN[5], sc.MeasMode,
 					sc.MeasW[0], sc.MeasW[1], sc.MeasW[2], sc.MeasW[3], sc.MeasW[4], sc.MeasW[5])
 			}
@@ -609,10 +612,10 @@ func (sc *Scenario) measFile(csv bool) string {
 		}
 		if sc.MeasInit {
 			if short {
-				fmt.Fprintf(&b, "%-9s %s %04d %04d %04d %s %.3f %.3f %.3f\n", sc.measIdent(), FmtDate(sc.MeasDate, sc.DateFormat),
+				fmt.Fprintf(&b, "%-9s %s %04d %04d %04d %s %.3f %.3f %.3f\n", sc.measIdent(), sc.fmtIn(sc.MeasDate),
 					sc.MeasN[0], sc.MeasN[1], sc.MeasN[2], sc.MeasMode, sc.MeasW[0], sc.MeasW[1], sc.MeasW[2])
 			} else {
-				fmt.Fprintf(&b, "%-9s %s %04d %04d %04d %s %.3f %.3f %.3f %04d   %04d    %04d     %.3f %.3f  %.3f\n", sc.measIdent(), FmtDate(sc.MeasDate, sc.DateFormat),
+				fmt.Fprintf(&b, "%-9s %s %04d %04d %04d %s %.3f %.3f %.3f %04d   %04d    %04d     %.3f %.3f  %.3f\n", sc.measIdent(), sc.fmtIn(sc.MeasDate),
 					sc.MeasN[0], sc.MeasN[1], sc.MeasN[2], sc.MeasMode, sc.MeasW[0], sc.MeasW[1], sc.MeasW[2],
 					sc.MeasN[3], sc.MeasN[4], sc.MeasN[5], sc.MeasW[3], sc.MeasW[4], sc.MeasW[5])
 			}
@@ -626,17 +629,17 @@ func (sc *Scenario) fertFile() string {
 	var b strings.Builder
 	b.WriteString("Field_ID  N   Frt date\n")
 	if sc.OtherField {
-		fmt.Fprintf(&b, "%-9s %03d %-3s %s\n", "OTHERF", 111, "KAS", FmtDate(sc.Start.AddDays(40), sc.DateFormat))
+		fmt.Fprintf(&b, "%-9s %03d %-3s %s\n", "OTHERF", 111, "KAS", sc.fmtIn(sc.Start.AddDays(40)))
 	}
 	for i, e := range sc.Fert {
-		fmt.Fprintf(&b, "%-9s %03d %-3s %s\n", sc.Field, e.Amount, e.Type, FmtDate(e.D, sc.DateFormat))
+		fmt.Fprintf(&b, "%-9s %03d %-3s %s\n", sc.Field, e.Amount, e.Type, sc.fmtIn(e.D))
 		if sc.OtherField && i%2 == 1 {
 			// a file sorted by date holds the rows of several fields interleaved
-			fmt.Fprintf(&b, "%-9s %03d %-3s %s\n", "OTHERF", 50+i, "KAS", FmtDate(e.D, sc.DateFormat))
+			fmt.Fprintf(&b, "%-9s %03d %-3s %s\n", "OTHERF", 50+i, "KAS", sc.fmtIn(e.D))
 		}
 	}
 	if sc.OtherField {
-		fmt.Fprintf(&b, "%-9s %03d %-3s %s\n", "ZZZ", 99, "RM", FmtDate(sc.Start.AddDays(10), sc.DateFormat))
+		fmt.Fprintf(&b, "%-9s %03d %-3s %s\n", "ZZZ", 99, "RM", sc.fmtIn(sc.Start.AddDays(10)))
 	}
 	return b.String()
 }
@@ -645,12 +648,12 @@ func (sc *Scenario) tillFile() string {
 	var b strings.Builder
 	b.WriteString("Field_ID  Ti Typ date\n          cm\n")
 	if sc.OtherField {
-		fmt.Fprintf(&b, "%-9s %3d %d   %s\n", "OTHERF", 25, 1, FmtDate(sc.Start.AddDays(33), sc.DateFormat))
+		fmt.Fprintf(&b, "%-9s %3d %d   %s\n", "OTHERF", 25, 1, sc.fmtIn(sc.Start.AddDays(33)))
 	}
 	for i, e := range sc.Till {
-		fmt.Fprintf(&b, "%-9s %3d %d   %s\n", sc.Field, e.Depth, e.Type, FmtDate(e.D, sc.DateFormat))
+		fmt.Fprintf(&b, "%-9s %3d %d   %s\n", sc.Field, e.Depth, e.Type, sc.fmtIn(e.D))
 		if sc.OtherField && i%2 == 0 {
-			fmt.Fprintf(&b, "%-9s %3d %d   %s\n", "OTHERF", 20, 1, FmtDate(e.D, sc.DateFormat))
+			fmt.Fprintf(&b, "%-9s %3d %d   %s\n", "OTHERF", 20, 1, sc.fmtIn(e.D))
 		}
 	}
 	return b.String()
@@ -662,12 +665,12 @@ func (sc *Scenario) irrFile() string {
 	// NOTE: the reader skips only ONE header line before the data; the second header line is read as a
 	// data line of field "mm" and ignored because its field id does not match.
 	if sc.OtherField {
-		fmt.Fprintf(&b, "%-9s %d %d %s\n", "OTHERF", 15, 20, FmtDate(sc.Start.AddDays(50), sc.DateFormat))
+		fmt.Fprintf(&b, "%-9s %d %d %s\n", "OTHERF", 15, 20, sc.fmtIn(sc.Start.AddDays(50)))
 	}
 	for i, e := range sc.Irr {
-		fmt.Fprintf(&b, "%-9s %d %d %s\n", sc.Field, e.MM, e.Conc, FmtDate(e.D, sc.DateFormat))
+		fmt.Fprintf(&b, "%-9s %d %d %s\n", sc.Field, e.MM, e.Conc, sc.fmtIn(e.D))
 		if sc.OtherField && i%2 == 0 {
-			fmt.Fprintf(&b, "%-9s %d %d %s\n", "OTHERF", 11, 7, FmtDate(e.D, sc.DateFormat))
+			fmt.Fprintf(&b, "%-9s %d %d %s\n", "OTHERF", 11, 7, sc.fmtIn(e.D))
 		}
 	}
 	b.WriteString("end\n")
@@ -691,12 +694,12 @@ func (sc *Scenario) gwFile() string {
 		head = strings.ReplaceAll(head, ",", sep)
 	}
 	row := func(id string, d Date, lvl float64) {
-		fmt.Fprintf(&b, "%s%s%s%s%s", id, sep, FmtDate(d, sc.DateFormat), sep, fmtG(lvl))
+		fmt.Fprintf(&b, "%s%s%s%s%s", id, sep, sc.fmtIn(d), sep, fmtG(lvl))
 		if extra >= 1 {
 			fmt.Fprintf(&b, "%s%s", sep, fmtG(71.5-lvl/10))
 		}
 		if extra >= 2 {
-			fmt.Fprintf(&b, "%s%s", sep, FmtDate(d.AddDays(400), sc.DateFormat))
+			fmt.Fprintf(&b, "%s%s", sep, sc.fmtIn(d.AddDays(400)))
 		}
 		if extra >= 3 {
 			fmt.Fprintf(&b, "%sgauge 7", sep)
